@@ -9,6 +9,7 @@ CONSTANTS
   FineTime = TRUE
   SlowWrites = TRUE
   SlowRtx = "no"
+  IgnoreToo = FALSE
   FailAts = {0, 1, 2, 7}
   MaxDepth = 7
 CONSTRAINT DepthBound
